@@ -1679,3 +1679,618 @@ func (c *Ctx) lastEmits(g *core.Func, at ast.Node, emit *core.Func) map[string]b
 	}
 	return result
 }
+
+// ---------------------------------------------------------------------------
+// HD9: the here-document reader starts with an empty scratch buffer.
+
+func ruleHD9() Rule {
+	return Rule{ID: "HD9", Kind: "must", Floor: 2,
+		Doc: "the lexer's scratch buffer (the strings.Builder that collects the text of the word or comment being scanned) is shared with the here-document reader, which uses it to render the delimiter and the body literals: wherever the reader is called, everything written to the buffer since the function was entered has been flushed (comment(), lit() or Reset) on every path; otherwise the text of a pending comment is glued in front of the delimiter, the delimiter line is never recognised and the comment is lost",
+		Run: func(c *Ctx, rr *core.RuleResult) {
+			reader := c.mustFn(rr, "parser.(*lexer).readHeredocs")
+			buf := c.fieldVar("parser", "lexer", "b")
+			if reader == nil || buf == nil {
+				if buf == nil {
+					rr.Unkp(c.P, "parser.lexer.b", 0, "the lexer's scratch buffer field was not found")
+				}
+				return
+			}
+			bufCall := func(info *types.Info, n ast.Node) string {
+				call, ok := n.(*ast.CallExpr)
+				if !ok {
+					return ""
+				}
+				se, ok := call.Fun.(*ast.SelectorExpr)
+				if !ok || core.FieldOf(info, se.X) != buf {
+					return ""
+				}
+				return se.Sel.Name
+			}
+			funcs := c.funcsOfPkg("parser", false)
+			writes, resets := map[*core.Func]bool{}, map[*core.Func]bool{}
+			for _, f := range funcs {
+				info := f.Info()
+				f.OwnNodes(func(n ast.Node) bool {
+					switch m := bufCall(info, n); {
+					case strings.HasPrefix(m, "Write"):
+						writes[f.Root()] = true
+					case m == "Reset":
+						resets[f.Root()] = true
+					}
+					return true
+				})
+			}
+			// flushers empty the buffer and put nothing in; writers (transitively) may leave text in it
+			flusher := func(f *core.Func) bool { return f != nil && resets[f] && !writes[f] }
+			writer := map[*core.Func]bool{}
+			for f := range writes {
+				if !flusher(f) {
+					writer[f] = true
+				}
+			}
+			for changed := true; changed; {
+				changed = false
+				for _, f := range funcs {
+					if writer[f] || flusher(f) || f.Decl == nil {
+						continue
+					}
+					info := f.Info()
+					f.OwnNodes(func(n ast.Node) bool {
+						if call, ok := n.(*ast.CallExpr); ok && !writer[f] {
+							if fo := core.StaticCallee(info, call); fo != nil {
+								if h := c.P.FuncOf(fo); h != nil && writer[h] {
+									writer[f] = true
+									changed = true
+								}
+							}
+						}
+						return true
+					})
+				}
+			}
+			var check func(target *core.Func, depth int)
+			seen := map[*core.Func]bool{}
+			check = func(target *core.Func, depth int) {
+				if seen[target] || depth > 2 {
+					return
+				}
+				seen[target] = true
+				for _, f := range funcs {
+					if f.Decl == nil || f == target {
+						continue
+					}
+					sites := c.callsTo(f, target)
+					if len(sites) == 0 {
+						continue
+					}
+					info := f.Info()
+					clean := core.NewFlow(f).MustSeen(true, func(n ast.Node) bool {
+						if bufCall(info, n) == "Reset" {
+							return true
+						}
+						if call, ok := n.(*ast.CallExpr); ok {
+							if fo := core.StaticCallee(info, call); fo != nil {
+								return flusher(c.P.FuncOf(fo))
+							}
+						}
+						return false
+					}, func(n ast.Node) bool {
+						if strings.HasPrefix(bufCall(info, n), "Write") {
+							return true
+						}
+						if call, ok := n.(*ast.CallExpr); ok {
+							if fo := core.StaticCallee(info, call); fo != nil {
+								if h := c.P.FuncOf(fo); h != nil && h != target && writer[h] && !flusher(h) {
+									return true
+								}
+							}
+						}
+						return false
+					})
+					for i, call := range sites {
+						key := fmt.Sprintf("%s|call of %s #%d", f.Name, target.Short, i+1)
+						if clean[call] {
+							rr.OK(f, key, call.Pos(), "flushed", "on every path the scratch buffer has been flushed after the last write to it")
+						} else {
+							rr.Bad(f, key, call.Pos(), "the here-document reader is reached on a path where text written to the lexer's scratch buffer (a comment being collected) has not been flushed: it is glued in front of the delimiter, the here-document is reported as delimited by EOF and the comment is lost (`cat <<E && # c`)")
+						}
+					}
+					// a private helper that only wraps the call hands the obligation to its callers
+					if f.Obj != nil && !f.Obj.Exported() && !writes[f] && !resets[f] && len(f.Body.List) <= 4 {
+						check(f, depth+1)
+					}
+				}
+			}
+			check(reader, 0)
+		}}
+}
+
+// ---------------------------------------------------------------------------
+// TL1: the line of the last token.
+
+// tokenLineField returns the lexer field the raw scanner compares with the
+// current line to tell a trailing comment from one on a line of its own.
+func (c *Ctx) tokenLineField() *types.Var {
+	raw := c.fn("parser.(*lexer).scanRawToken")
+	lineF := c.fieldVar("parser", "lexer", "line")
+	if raw == nil || lineF == nil {
+		return nil
+	}
+	var out *types.Var
+	info := raw.Info()
+	raw.OwnNodes(func(n ast.Node) bool {
+		be, ok := n.(*ast.BinaryExpr)
+		if !ok || be.Op != token.EQL || out != nil {
+			return true
+		}
+		fx, fy := core.FieldOf(info, be.X), core.FieldOf(info, be.Y)
+		switch {
+		case fx == lineF && fy != nil && fy != lineF:
+			out = fy
+		case fy == lineF && fx != nil && fx != lineF:
+			out = fx
+		}
+		return true
+	})
+	return out
+}
+
+func ruleTL1() Rule {
+	return Rule{ID: "TL1", Kind: "must", Floor: 3,
+		Doc: "the field in which the raw scanner remembers the line its last token ended on (compared with the current line to decide whether a `#` starts a trailing comment, which ends before the newline, or a comment on a line of its own) only ever holds 0 or a copy of the line counter - it is assigned nothing else, never incremented - and is brought up to date where the quote scanner drops a backslash-newline between tokens; otherwise a comment on a continued line swallows the newline that ends the command",
+		Run: func(c *Ctx, rr *core.RuleResult) {
+			x := c.tokenLineField()
+			lineF := c.fieldVar("parser", "lexer", "line")
+			if x == nil || lineF == nil {
+				rr.Unkp(c.P, "parser|token line field", 0, "the raw scanner compares no field with the line counter: how a trailing comment is told from one on its own line was not recognised")
+				return
+			}
+			n := 0
+			for _, f := range c.funcsOfPkg("parser", false) {
+				info := f.Info()
+				// locals bound to the line counter
+				lineCopy := map[types.Object]bool{}
+				f.OwnNodes(func(nd ast.Node) bool {
+					if as, ok := nd.(*ast.AssignStmt); ok && as.Tok == token.DEFINE && len(as.Lhs) == len(as.Rhs) {
+						for i, l := range as.Lhs {
+							if id, ok := l.(*ast.Ident); ok && core.FieldOf(info, as.Rhs[i]) == lineF {
+								lineCopy[info.Defs[id]] = true
+							}
+						}
+					}
+					return true
+				})
+				f.OwnNodes(func(nd ast.Node) bool {
+					switch s := nd.(type) {
+					case *ast.IncDecStmt:
+						if core.FieldOf(info, s.X) == x {
+							n++
+							rr.Bad(f, fmt.Sprintf("%s|%s%s", f.Name, x.Name(), s.Tok), s.Pos(), "the line of the last token is incremented or decremented: it holds 0 or a copy of the line counter, which read() has advanced already when a newline was consumed")
+						}
+					case *ast.AssignStmt:
+						for i, l := range s.Lhs {
+							if _, isSel := ast.Unparen(l).(*ast.SelectorExpr); !isSel || core.FieldOf(info, l) != x {
+								continue
+							}
+							n++
+							key := fmt.Sprintf("%s|%s assigned #%d", f.Name, x.Name(), n)
+							ok := false
+							if s.Tok == token.ASSIGN && len(s.Lhs) == len(s.Rhs) {
+								r := ast.Unparen(s.Rhs[i])
+								if core.FieldOf(info, r) == lineF {
+									ok = true
+								}
+								if v, isC := constInt(info, r); isC && v == 0 {
+									ok = true
+								}
+								if id, isID := r.(*ast.Ident); isID && lineCopy[info.Uses[id]] {
+									ok = true
+								}
+							}
+							if ok {
+								rr.OK(f, key, s.Pos(), "line-or-zero", "assigned the line counter or 0")
+							} else {
+								rr.Bad(f, key, s.Pos(), "the line of the last token is assigned something other than the line counter or 0")
+							}
+						}
+					}
+					return true
+				})
+			}
+			// every exit of the raw scanner records (or clears) the line: a deferred
+			// function that assigns the field, or each return hands its token to a helper
+			// that does
+			if raw := c.fn("parser.(*lexer).scanRawToken"); raw != nil {
+				info := raw.Info()
+				assigns := func(root ast.Node, fi *types.Info) bool {
+					found := false
+					ast.Inspect(root, func(nd ast.Node) bool {
+						if as, ok := nd.(*ast.AssignStmt); ok {
+							for _, l := range as.Lhs {
+								if core.FieldOf(fi, l) == x {
+									found = true
+								}
+							}
+						}
+						return true
+					})
+					return found
+				}
+				deferred := false
+				for _, st := range raw.Body.List {
+					if d, ok := st.(*ast.DeferStmt); ok {
+						if lit, ok := d.Call.Fun.(*ast.FuncLit); ok && assigns(lit.Body, info) {
+							deferred = true
+						}
+						if fo := core.StaticCallee(info, d.Call); fo != nil {
+							if h := c.P.FuncOf(fo); h != nil && h.Body != nil && assigns(h.Body, h.Info()) {
+								deferred = true
+							}
+						}
+					}
+				}
+				key := raw.Name + "|every exit records the line"
+				if deferred {
+					rr.OK(raw, key, raw.Pos(), "deferred", "a deferred function assigns the field on every exit")
+				} else {
+					bare := token.NoPos
+					nret := 0
+					raw.OwnNodes(func(nd ast.Node) bool {
+						r, ok := nd.(*ast.ReturnStmt)
+						if !ok {
+							return true
+						}
+						nret++
+						covered := false
+						if len(r.Results) == 1 {
+							if call, ok := ast.Unparen(r.Results[0]).(*ast.CallExpr); ok {
+								if fo := core.StaticCallee(info, call); fo != nil {
+									if h := c.P.FuncOf(fo); h != nil && h.Body != nil && assigns(h.Body, h.Info()) {
+										covered = true
+									}
+								}
+							}
+						}
+						if !covered && bare == token.NoPos {
+							bare = r.Pos()
+						}
+						return true
+					})
+					if bare == token.NoPos && nret > 0 {
+						rr.OK(raw, key, raw.Pos(), "per-return", fmt.Sprintf("each of the %d returns hands its token to a helper that assigns the field", nret))
+					} else {
+						rr.Bad(raw, key, bare, fmt.Sprintf("the raw scanner returns here without recording the line of the token in %s: the field keeps the line of an earlier token, and a comment glued to this word (`ls#c`) is treated as one on a line of its own, which swallows the newline", x.Name()))
+					}
+				}
+			}
+			// the continuation between tokens
+			if q := c.mustFn(rr, "parser.(*lexer).scanQuote"); q != nil {
+				info := q.Info()
+				isNL := func(e ast.Expr) bool {
+					v, ok := constInt(info, e)
+					return ok && v == '\n'
+				}
+				synced := func(root ast.Node) bool {
+					found := false
+					ast.Inspect(root, func(nd ast.Node) bool {
+						as, ok := nd.(*ast.AssignStmt)
+						if !ok || len(as.Lhs) != len(as.Rhs) {
+							return true
+						}
+						for i, l := range as.Lhs {
+							if core.FieldOf(info, l) != x || core.FieldOf(info, as.Rhs[i]) != lineF {
+								continue
+							}
+							// at most under `x != 0`
+							clean := true
+							for _, gd := range guardsOf(c.P, as, root) {
+								be, isBE := ast.Unparen(gd.cond).(*ast.BinaryExpr)
+								if !isBE || !gd.pos || be.Op != token.NEQ || core.FieldOf(info, be.X) != x {
+									clean = false
+									continue
+								}
+								if v, isC := constInt(info, be.Y); !isC || v != 0 {
+									clean = false
+								}
+							}
+							if clean {
+								found = true
+							}
+						}
+						return true
+					})
+					return found
+				}
+				var branches []ast.Node
+				q.OwnNodes(func(nd ast.Node) bool {
+					ifs, ok := nd.(*ast.IfStmt)
+					if !ok {
+						return true
+					}
+					be, isBE := ast.Unparen(ifs.Cond).(*ast.BinaryExpr)
+					if !isBE || !(isNL(be.X) || isNL(be.Y)) {
+						return true
+					}
+					// only the escape directly behind the backslash: the if is a statement of a case '\\'
+					inEsc := false
+					for p := c.P.Parent(ifs); p != nil; p = c.P.Parent(p) {
+						if cc, ok := p.(*ast.CaseClause); ok {
+							for _, e := range cc.List {
+								if v, isC := constInt(info, e); isC && v == '\\' {
+									inEsc = true
+								}
+							}
+							break
+						}
+					}
+					if !inEsc {
+						return true
+					}
+					switch {
+					case be.Op == token.EQL:
+						branches = append(branches, ifs.Body)
+					case be.Op == token.NEQ && ifs.Else != nil:
+						branches = append(branches, ifs.Else)
+					case be.Op == token.NEQ:
+						branches = append(branches, nil)
+					}
+					return true
+				})
+				key := q.Name + "|line continuation between tokens"
+				switch {
+				case len(branches) == 0:
+					rr.Unk(q, key, q.Pos(), "the place where the quote scanner drops a backslash-newline was not recognised")
+				default:
+					ok := true
+					for _, b := range branches {
+						if b == nil || !synced(b) {
+							ok = false
+						}
+					}
+					if ok {
+						rr.OK(q, key, branches[0].Pos(), "synchronised", fmt.Sprintf("where a backslash-newline is dropped, %s follows the line counter (unless it is 0: no token on the line yet)", x.Name()))
+					} else {
+						rr.Bad(q, key, q.Pos(), fmt.Sprintf("a backslash-newline is dropped without bringing %s up to the new line: a `#` on the continued line is not a trailing comment any more and swallows the newline that ends the command (`echo a \\` newline `# c` newline `echo b` becomes one command)", x.Name()))
+					}
+				}
+			}
+		}}
+}
+
+// ---------------------------------------------------------------------------
+// ESC2: the escape helper conserves the backslash.
+
+func ruleESC2() Rule {
+	return Rule{ID: "ESC2", Kind: "must", Floor: 1,
+		Doc: "in the helper that handles the character behind a backslash inside double-quotes and here-document bodies, the character is written to the scratch buffer only after the backslash has been written on the same path (a pair that is not an escape sequence stays in the text as it is); the paths that drop the backslash are those that record a quoting node (whose token is the backslash) or the line continuation.  Otherwise the body of a here-document loses a byte per `\\\"`",
+		Run: func(c *Ctx, rr *core.RuleResult) {
+			f := c.mustFn(rr, "parser.(*lexer).esc")
+			buf := c.fieldVar("parser", "lexer", "b")
+			if f == nil || buf == nil {
+				return
+			}
+			info := f.Info()
+			var param types.Object
+			if f.Type.Params != nil {
+				for _, fld := range f.Type.Params.List {
+					for _, nm := range fld.Names {
+						if b, ok := info.Defs[nm].Type().Underlying().(*types.Basic); ok && b.Kind() == types.Int32 && param == nil {
+							param = info.Defs[nm]
+						}
+					}
+				}
+			}
+			if param == nil {
+				rr.Unk(f, f.Name+"|character parameter", f.Pos(), "the helper has no rune parameter")
+				return
+			}
+			bufWrite := func(n ast.Node) (*ast.CallExpr, bool) {
+				call, ok := n.(*ast.CallExpr)
+				if !ok {
+					return nil, false
+				}
+				se, ok := call.Fun.(*ast.SelectorExpr)
+				if !ok || core.FieldOf(info, se.X) != buf || !strings.HasPrefix(se.Sel.Name, "Write") || len(call.Args) != 1 {
+					return nil, false
+				}
+				return call, true
+			}
+			isBackslash := func(e ast.Expr) bool {
+				if v, ok := constInt(info, e); ok && v == '\\' {
+					return true
+				}
+				s, ok := constStr(info, e)
+				return ok && s == `\`
+			}
+			after := core.NewFlow(f).MustSeen(false, func(n ast.Node) bool {
+				call, ok := bufWrite(n)
+				return ok && isBackslash(call.Args[0])
+			}, nil)
+			n := 0
+			f.OwnNodes(func(x ast.Node) bool {
+				call, ok := bufWrite(x)
+				if !ok {
+					return true
+				}
+				id, isID := ast.Unparen(call.Args[0]).(*ast.Ident)
+				if !isID || info.Uses[id] != param {
+					// string(r) and the like
+					uses := false
+					ast.Inspect(call.Args[0], func(y ast.Node) bool {
+						if id, ok := y.(*ast.Ident); ok && info.Uses[id] == param {
+							uses = true
+						}
+						return true
+					})
+					if !uses {
+						return true
+					}
+				}
+				n++
+				key := fmt.Sprintf("%s|character written #%d", f.Name, n)
+				if after[call] {
+					rr.OK(f, key, call.Pos(), "pair-kept", "the backslash has been written on every path to this write")
+				} else {
+					rr.Bad(f, key, call.Pos(), "the character behind the backslash is written to the text without the backslash on some path: `\\\"` in the body of a here-document (or any pair that is not an escape sequence) loses a byte")
+				}
+				return true
+			})
+			if n == 0 {
+				rr.Unk(f, f.Name+"|character written", f.Pos(), "the helper never writes its character to the scratch buffer: idiom not recognised")
+			}
+		}}
+}
+
+// ---------------------------------------------------------------------------
+// AL4: alias membership and the continuation flag.
+
+func ruleAL4() Rule {
+	return Rule{ID: "AL4", Kind: "must", Floor: 2,
+		Doc: "(a) whether a word names an alias is decided by the comma-ok form of the read of the alias table, wherever the table is read (an alias whose value is the empty string is an alias: `alias nohup=''` removes the word); (b) a function that tries alias substitution on the word after an alias whose value ends in a blank decides that from the alias stack before the substitution pushes a new entry, so the re-scan after a successful substitution stays in the same activation - the function does not call itself, which would decide again from the stack top the substitution has just pushed and stop the chain after one replacement",
+		Run: func(c *Ctx, rr *core.RuleResult) {
+			aliases := c.fieldVar("interp", "ExecEnv", "Aliases")
+			subst := c.mustFn(rr, "parser.(*lexer).subst")
+			if aliases == nil || subst == nil {
+				if aliases == nil {
+					rr.Unkp(c.P, "interp.ExecEnv.Aliases", 0, "the alias table field was not found")
+				}
+				return
+			}
+			n := 0
+			for _, pkg := range []string{"parser", "interp"} {
+				for _, f := range c.funcsOfPkg(pkg, false) {
+					info := f.Info()
+					f.OwnNodes(func(x ast.Node) bool {
+						ix, ok := x.(*ast.IndexExpr)
+						if !ok || core.FieldOf(info, ix.X) != aliases {
+							return true
+						}
+						// element written, deleted or ranged over: not a membership question
+						switch p := c.P.Parent(ix).(type) {
+						case *ast.AssignStmt:
+							for _, l := range p.Lhs {
+								if l == ast.Expr(ix) {
+									return true
+								}
+							}
+							n++
+							key := fmt.Sprintf("%s|alias table read #%d", f.Name, n)
+							if len(p.Lhs) == 2 && len(p.Rhs) == 1 {
+								rr.OK(f, key, ix.Pos(), "comma-ok", "membership comes from the map read itself")
+							} else {
+								rr.Bad(f, key, ix.Pos(), "the alias table is read without the comma-ok form: an alias whose value is the empty string cannot be told from a word that is no alias, so `alias nohup=''` no longer removes the word")
+							}
+							return true
+						}
+						n++
+						rr.Bad(f, fmt.Sprintf("%s|alias table read #%d", f.Name, n), ix.Pos(), "the alias table is read in an expression that cannot deliver membership (no comma-ok form)")
+						return true
+					})
+				}
+			}
+			if n == 0 {
+				rr.Unkp(c.P, "parser|alias table read", subst.Pos(), "no read of the alias table found in parser or interp")
+			}
+			for _, g := range c.funcsOfPkg("parser", false) {
+				if g.Decl == nil || len(c.callsTo(g, subst)) == 0 {
+					continue
+				}
+				key := g.Name + "|re-scan after substitution"
+				if self := c.callsTo(g, g); len(self) != 0 {
+					rr.Bad(g, key, self[0].Pos(), "the function that tries alias substitution calls itself to scan on: the new activation decides again whether the next word is examined, from the alias the substitution has just pushed (whose text is still unread), so a chain `sudo='sudo '`, `ll='ls -l'`, `ls='ls --color'` stops after one replacement")
+				} else {
+					rr.OK(g, key, g.Pos(), "same-activation", "no self-call: the continuation flag decided at entry governs the whole re-scan")
+				}
+			}
+		}}
+}
+
+// ---------------------------------------------------------------------------
+// ESC3: one character behind a backslash.
+
+func ruleESC3() Rule {
+	return Rule{ID: "ESC3", Kind: "must", Floor: 2,
+		Doc: "a backslash quotes exactly the next character: in the quote scanner's backslash clause one character is read - by the single direct call of read() - before the clause decides between a line continuation and a quoted character, and the escape helper used inside double-quotes and here-documents, which is handed the character, reads nothing itself; a helper that looks further ahead (`\\` CR LF taken as a continuation) drops a quoted character",
+		Run: func(c *Ctx, rr *core.RuleResult) {
+			q := c.mustFn(rr, "parser.(*lexer).scanQuote")
+			esc := c.mustFn(rr, "parser.(*lexer).esc")
+			read := c.fn("parser.(*lexer).read")
+			if q == nil || esc == nil || read == nil {
+				return
+			}
+			readers := func(f *core.Func, root ast.Node) (direct, other []*ast.CallExpr) {
+				info := f.Info()
+				ast.Inspect(root, func(n ast.Node) bool {
+					if _, isLit := n.(*ast.FuncLit); isLit {
+						return false
+					}
+					call, ok := n.(*ast.CallExpr)
+					if !ok {
+						return true
+					}
+					fo := core.StaticCallee(info, call)
+					if fo == nil {
+						return true
+					}
+					switch h := c.P.FuncOf(fo); {
+					case h == nil:
+					case h == read:
+						direct = append(direct, call)
+					case h.Pkg == f.Pkg && !h.Generated && c.reachesReadRune(h):
+						other = append(other, call)
+					}
+					return true
+				})
+				return
+			}
+			info := q.Info()
+			found := false
+			q.OwnNodes(func(n ast.Node) bool {
+				cc, ok := n.(*ast.CaseClause)
+				if !ok {
+					return true
+				}
+				isEsc := false
+				for _, e := range cc.List {
+					if v, isC := constInt(info, e); isC && v == '\\' {
+						isEsc = true
+					}
+				}
+				if !isEsc {
+					return true
+				}
+				found = true
+				var direct, other []*ast.CallExpr
+				for _, st := range cc.Body {
+					d, o := readers(q, st)
+					direct, other = append(direct, d...), append(other, o...)
+				}
+				key := q.Name + "|backslash clause reads one character"
+				switch {
+				case len(direct) == 1 && len(other) == 0:
+					rr.OK(q, key, cc.Pos(), "one-read", "one direct call of read(), nothing else in the clause reaches the input")
+				case len(other) > 0:
+					rr.Bad(q, key, other[0].Pos(), "the backslash clause calls something else that reads the input besides its own read(): more than the one character behind the backslash can be consumed before the clause decides what is quoted")
+				default:
+					rr.Bad(q, key, cc.Pos(), fmt.Sprintf("the backslash clause contains %d calls of read(): a backslash quotes exactly one character", len(direct)))
+				}
+				return true
+			})
+			if !found {
+				rr.Unk(q, q.Name+"|backslash clause reads one character", q.Pos(), "no case for the backslash in the quote scanner")
+			}
+			d, o := readers(esc, esc.Body)
+			key := esc.Name + "|reads nothing"
+			if len(d)+len(o) == 0 {
+				rr.OK(esc, key, esc.Pos(), "no-read", "the helper works on the character it is handed")
+			} else {
+				at := esc.Pos()
+				if len(d) > 0 {
+					at = d[0].Pos()
+				} else {
+					at = o[0].Pos()
+				}
+				rr.Bad(esc, key, at, "the escape helper reads the input itself: the character behind the backslash is no longer the only one it decides on")
+			}
+		}}
+}
